@@ -294,6 +294,18 @@ theorem C14_artifact_url_partial (art loc rs url : Bytes) (hart : IsBytes art) (
   have := glue_spec loc _ _ (urlencode_no_hash _) (withRelay_roundtrip sSAMLart art rs isBytes_SAMLart hart hne hrs) hloc
   exact ⟨this, by simp [specArtifactUrl, this]⟩
 
+/-- Full statement for the artifact URL (every destination): false for the same two classes of
+    destinations as the redirect URL (`use_http_artifact` chooses its glue the same way). -/
+def C14_artifact_url_full : Prop :=
+  ∀ (art loc rs url : Bytes), IsBytes art → art ≠ [] → IsBytes rs → artifactUrl true art loc rs = some url →
+    specUrl loc (withRelay (sSAMLart, art) rs) url = true
+
+theorem C14_artifact_url_counterexample : ¬ C14_artifact_url_full := by
+  intro h
+  have := h [65] [47, 35, 102] [] _ (by decide) (by decide) (by decide) rfl
+  revert this
+  decide
+
 /-- `http_redirect_message(typ="SAMLart")`: the artifact travels verbatim. -/
 theorem C14_redirect_art_roundtrip (deflate : Bytes → Bytes) (inflate : Bytes → Option Bytes) (art loc rs url : Bytes)
     (hart : IsBytes art) (hne : art ≠ []) (hrs : IsBytes rs) (hloc : locOk loc = true)
